@@ -343,6 +343,41 @@ func TestC03(t *testing.T) {
 		if sig, msg := w.runBlocks(blocks, rapid.SampledFrom([]time.Duration{6 * time.Second, time.Hour, 7 * time.Hour}).Draw(rt, "blockTime")); sig != "" {
 			failf(rt, rec, sig, w.trace, "%s", msg)
 		}
+		// a file paid once whose paid period runs out while provers still prove it: nothing in the property ends a prover's
+		// obligations or its pay at that height. The fourteen thousand blocks in between are not executed one by one; the
+		// provers that keep proving do so right after the jump (which is what their state would be had they proved in
+		// every window on the way), everybody else is seen as having missed.
+		if rapid.IntRange(0, 3).Draw(rt, "payOnceFilePastItsExpiry") == 0 {
+			f, r := w.postFile(w.owner, append([]byte{201}, c02Content(rapid.Int64Range(1, 3000).Draw(rt, "payOnceSize"))...), 3, w.f.Height()+14_401+rapid.Int64Range(0, 2*C).Draw(rt, "expiresIn"))
+			if r.OK() {
+				n := 0
+				for _, p := range w.provs {
+					if n < 3 && rapid.IntRange(0, 2).Draw(rt, "takesPayOnce") > 0 {
+						w.prove(p, f)
+						n++
+					}
+				}
+				target := f.Expires - rapid.Int64Range(0, W).Draw(rt, "beforeExpiry")
+				if target > w.f.Height() {
+					w.f.SetBlock(target, w.f.Time().Add(time.Duration(target-w.f.Height())*6*time.Second))
+					w.logf("jump to height %d (the pay-once file expires at %d)", target, f.Expires)
+					for _, k := range w.sortedPairKeys() {
+						if !w.stopped[k] {
+							for _, a := range w.provs {
+								if a.Bech == w.pairs[k].Prover {
+									w.prove(a, w.pairs[k].File)
+								}
+							}
+						}
+					}
+				}
+				w.fundGauge(w.owner, 1_000_000_000, 30*24*time.Hour)
+				if sig, msg := w.runBlocks(int(W)*2+int(C)*3, 6*time.Second); sig != "" {
+					failf(rt, rec, sig, w.trace, "%s", msg)
+				}
+				rec.Count("histories-with-a-pay-once-file-past-its-expiry")
+			}
+		}
 		if w.rewardsPaid > 0 {
 			rec.Count("histories-with-paying-reward-block")
 			if w.secondDenomPaid {
